@@ -164,6 +164,11 @@ fn c04() {
     add(json!({"mode": "self", "n": 2, "after": 1, "cap": 8, "probe_first": true, "boxed": true, "pb": pb}));
     add(json!({"mode": "separate", "n": 1, "flushers": 1, "cap": 8, "probe_first": true, "pb": pb}));
     add(json!({"mode": "during-shutdown", "n": 1, "cap": 8, "probe_first": true, "pb": pb}));
+    // the queue reports its own metrics to a recorder (the writer's idle-time accounting is live)
+    add(json!({"mode": "self", "n": 1, "after": 1, "cap": 8, "recorder": true, "pb": pb}));
+    add(json!({"mode": "self", "n": 2, "after": 1, "cap": 8, "recorder": true, "pb": pb}));
+    add(json!({"mode": "separate", "n": 1, "flushers": 1, "cap": 8, "recorder": true, "pb": pb}));
+    add(json!({"mode": "during-shutdown", "n": 1, "cap": 8, "recorder": true, "pb": pb}));
     // a flush requested by another thread while main drops the join handle
     for n in 1..=2 {
         add(json!({"mode": "request-by-another-thread-during-shutdown", "n": n, "cap": 8, "pb": pb}));
